@@ -1,4 +1,9 @@
 (* C13 — Threads sharing a connection never cross, duplicate or lose replies.
+(* SCOPE. The transition system has client threads that issue one request each and wait WITHOUT expiring (timeouts only end a poll or a
+   condition wait; expiry and late replies are C15's), background serving threads, and a peer that answers with by-value replies in any
+   order; dispatching a reply is one step. Incoming requests of the peer and exception replies are exercised by the harness only.
+   Liveness: [c13_no_deadlock] is progress (some thread can step while a reply is in the stream); that every request completes is
+   refuted for deadline-free waits (last theorem) and not proved otherwise. *)
    Every statement holds in every state reachable under any scheduler, any number of client threads and
    background serving threads, any order of answers by the peer, with nondeterministic timeouts. *)
 From V Require Import lib.Base model.Serve proofs.ServeP proofs.ServeTie gen.Gen_serve.
